@@ -855,6 +855,9 @@ func runC09(c *Ctx) error {
 	}
 	// ---- generated: reader level
 	n := c.N(200, 2500)
+	if c.Tier == "search" { // the search after a correspondence break: a second, larger quick run
+		n = 400
+	}
 	for i := 0; i < n; i++ {
 		cr := r.Fork()
 		nf := cr.Range(1, 3)
@@ -872,6 +875,9 @@ func runC09(c *Ctx) error {
 	}
 	// ---- generated: end to end
 	np := c.N(14, 160)
+	if c.Tier == "search" {
+		np = 24
+	}
 	per := 14
 	if c.Thorough() {
 		per = 30
